@@ -1,8 +1,9 @@
 //! C16 - messages interleaved on different chunk streams are each reassembled intact.
-//! Oracle: independent per-csid reassembly.  The pinned library has one partial-payload buffer
-//! for all chunk streams (known finding F10); the check stays sharp around it: everything
-//! delivered before the first overlap point must be exact, and histories without overlap must be
-//! entirely right (DESIGN section 4, C16).
+//! Oracle: independent per-csid reassembly.  The pinned library had one partial-payload buffer
+//! for all chunk streams (F10, repaired by df98ad5).  The stream is fed in two phases around the
+//! first overlap point, so a regression is classified: a divergence that begins at or after the
+//! first overlap is reported under the signature the former known finding used, anything wrong
+//! before it (or in a history without overlap) under its own signature.
 
 use crate::adapt::lib_feed;
 use crate::fw::{lib_call, Check, Out, Plan, Tier};
@@ -272,7 +273,7 @@ impl Check for C16 {
     }
     fn assumptions(&self) -> Vec<String> {
         vec![
-            format!("known finding F10 (single partial-payload buffer): a divergence that begins at or after the first overlap point is reported under signature '{}'; anything delivered before that point, and every history without overlap, must be exact", KNOWN_SIG),
+            format!("no known finding is open for C16 (F10 was repaired); a divergence that begins at or after the first overlap point is reported under signature '{}', a divergence before it under its own signature", KNOWN_SIG),
         ]
     }
     fn required_counters(&self, _tier: Tier) -> Vec<String> {
@@ -280,6 +281,7 @@ impl Check for C16 {
             "histories_with_overlap".into(),
             "histories_without_overlap".into(),
             "prefix_before_overlap_exact".into(),
+            "overlapping_histories_reassembled_exactly".into(),
             "schedule_no-overlap".into(),
             "schedule_audio-inside-video".into(),
             "schedule_round-robin".into(),
